@@ -211,6 +211,9 @@ def composition_case(rnd, wd, lits):
 
 # ----------------------------------------------------------------------------- (b) moment test
 
+LONG_STEP = {"lf": 0.6, "3s": 1.5, "4s": 2.0}
+
+
 def moment_config(rnd, tier, force=None):
     import hmclab
     D, M = hmclab.Distributions, hmclab.MassMatrices
@@ -307,7 +310,7 @@ def moment_test(rnd, tier, k, force=None):
     logpdf = cfg.pop("_logpdf")
     d = 2
     n = 1500 if tier == "quick" else 6000
-    transitions = 3
+    transitions = cfg.pop("transitions", 3)
     rng = numpy.random.default_rng(4000 + k)
     starts = draw(rng, n)
     # the chains are started from draws of a known density: exp(-misfit) must be that density up to a constant
@@ -385,15 +388,18 @@ def run(tier, seed):
         if key in searched or len(searched) >= 4:
             continue
         searched.add(key)
-        for tk in ("truncated", "gaussian"):
-            force = {"target": tk, "kind": m["kind"]}
+        for tk in ("truncated", "gaussian", "gaussian-long-steps"):
+            force = {"target": tk.split("-")[0], "kind": m["kind"]}
             if m["kind"] == "hmc":
-                force.update(mass=key[1], integrator=key[2], stepsize=0.5, steps=5)
+                force.update(mass=key[1], integrator=key[2], stepsize=0.5, steps=5, randomize=False, transitions=12)
+                if tk.endswith("long-steps"):
+                    # steps as long as the integrator is meant for: what a fixed-step bias needs in order to show
+                    force.update(stepsize=LONG_STEP.get(key[2], 0.6), steps=2, transitions=30)
             cfgm, badm = moment_test(rnd, tier, 900 + len(searched), force)
             dist["moment_tests"] += 1
             if badm:
                 found[key] = cfgm
-                violations.append(Violation(f"moments-{cfgm['target']}-{cfgm['kind']}", f"chains started from exact draws of the {cfgm['target']} target leave it after 3 transitions: first / second moments "
+                violations.append(Violation(f"moments-{cfgm['target']}-{cfgm['kind']}", f"chains started from exact draws of the {cfgm['target']} target leave it after a few transitions: first / second moments "
                                             f"are {cfgm['z_first']:.1f} / {cfgm['z_second']:.1f} standard errors off ({cfgm})", {"moment_cfg": cfgm}))
                 break
     for j in bad:
@@ -406,9 +412,14 @@ def run(tier, seed):
     for k, log in errors:
         violations.append(Violation("coq-error", "correspondence shard failed: " + log[-300:], {"log": log, "no_failing_input_found": True}))
     kinds = ["gaussian", "gaussian_full", "laplace", "mixture", "mixture_scalar", "truncated"]
-    for k in range(8 if tier == "quick" else 64):
+    nm = 8 if tier == "quick" else 64
+    for k in range(nm + 3):
         force = {"target": kinds[k % 8] if k % 8 < len(kinds) else "truncated"}                  # every target kind in every run
-        if k % 8 in (0, 1):
+        if k >= nm:
+            # every integrator once with a fixed step as long as it is meant for, and enough transitions for a bias to build up
+            integ = ["lf", "3s", "4s"][k - nm]
+            force = {"target": "gaussian", "kind": "hmc", "mass": "unit", "integrator": integ, "stepsize": LONG_STEP[integ], "steps": 2, "randomize": False, "transitions": 30}
+        elif k % 8 in (0, 1):
             force.update(kind="hmc", mass=["full_int", "full"][k % 2], integrator=rnd.choice(["lf", "3s", "4s"]), stepsize=0.3, steps=4, randomize=False)
         elif k % 8 == 6:
             force.update(kind="rwmh", stepmode="vector", stepsize=1.0)          # the box-truncated target under both samplers
@@ -418,7 +429,7 @@ def run(tier, seed):
         dist["moment_tests"] += 1
         dist["moment_chains"] += 1500 if tier == "quick" else 6000
         if badm:
-            violations.append(Violation(f"moments-{cfg['target']}-{cfg['kind']}", f"chains started from exact draws of the {cfg['target']} target leave it after 3 transitions: first / second moments "
+            violations.append(Violation(f"moments-{cfg['target']}-{cfg['kind']}", f"chains started from exact draws of the {cfg['target']} target leave it after a few transitions: first / second moments "
                                         f"are {cfg['z_first']:.1f} / {cfg['z_second']:.1f} standard errors off; exp(-misfit) deviates from the density of the draws by "
                                         f"{cfg['density_mismatch']:.2g} (relative, in the log) ({cfg})", {"moment_cfg": cfg}))
         if k < 2:
@@ -427,7 +438,7 @@ def run(tier, seed):
         "evaluations": dist["composition_runs"] + dist["moment_tests"], "distinct_nontrivial": len(seen),
         "rule": "composition tie: complete runs of the real samplers with real Unit/Diagonal/Full masses and Normal (diag / full) / Laplace targets behind logging wrappers, "
                 "scripted random numbers, all integrators; moment tests: 1500 (thorough 6000) independent chains from exact draws of Gaussian, correlated Gaussian, Laplace, "
-                "mixture (per-dimension and scalar variances) and box-truncated targets, 3 transitions each through _propose/_evaluate_acceptance, first and second moments vs closed forms at 7 standard errors",
+                "mixture (per-dimension and scalar variances) and box-truncated targets, 3 transitions each (30 for the three long-step configurations, one per integrator) through _propose/_evaluate_acceptance, first and second moments vs closed forms at 7 standard errors",
         "samples": samples, "violations": violations,
         "traces_validated_against_impl": len(coq) - len(bad),
         "coverage": {"distribution": dist, "correspondence_failures": len(bad)},
